@@ -33,7 +33,8 @@ def is_alias_type(tstr, tc):
 
 
 class Flow:
-    def __init__(self, fn, program=None, control=False, max_depth=2):
+    def __init__(self, fn, program=None, control=False, max_depth=2, fields_env=True):
+        self.fields_env = fields_env      # guard rules switch this off: a looser dependence must not make a condition "relate" two objects
         self.fn = fn
         self.program = program
         self.control = control
@@ -42,6 +43,8 @@ class Flow:
         self.env = defaultdict(set)       # local decl id -> atoms (contents and shape)
         self.shape = defaultdict(set)     # local decl id -> atoms its *element count* may depend on
         self.roots = defaultdict(set)     # local decl id -> storage roots
+        self.fenv = defaultdict(set)      # member name -> atoms written into this->member inside this function
+        self.alias_ids = defaultdict(set) # local alias (pointer / reference / iterator / slice) id -> ids of the locals it may denote
         self._solve()
 
     # ------------------------------------------------------------------------------------------
@@ -69,8 +72,8 @@ class Flow:
             if is_container_type(t):
                 if size_only:
                     return {("this", d["n"], "size")}
-                return {("this", d["n"], "size"), ("this", d["n"], "content")}
-            return {("this", d["n"], "val")}
+                return {("this", d["n"], "size"), ("this", d["n"], "content")} | (set(self.fenv.get(d["n"], ())) if self.fields_env else set())
+            return {("this", d["n"], "val")} | (set(self.fenv.get(d["n"], ())) if self.fields_env else set())
         return set()
 
     def deps(self, n, size_only=False, depth=0):
@@ -219,6 +222,10 @@ class Flow:
         ids = set()
         for x in _lvalue_locals(t):
             ids.add(x)
+        # a write through a local pointer / reference / iterator reaches the locals it may denote
+        via_alias = set()
+        for x in list(ids):
+            via_alias |= self.alias_ids.get(x, set())
         if whole is None:
             whole = t.k == "DeclRefExpr"
         if self.control:
@@ -232,6 +239,18 @@ class Flow:
                 before = len(self.shape[i])
                 self.shape[i] |= (atoms if shape_atoms is None else shape_atoms)
                 if len(self.shape[i]) != before:
+                    changed = True
+        for i in via_alias - ids:
+            before = len(self.env[i])
+            self.env[i] |= atoms
+            if len(self.env[i]) != before:
+                changed = True
+        # writes into members of *this are visible to later reads of the member in the same function
+        for r in self.root(t):
+            if r[0] == "this" and r[1] != "*":
+                before = len(self.fenv[r[1]])
+                self.fenv[r[1]] |= atoms
+                if len(self.fenv[r[1]]) != before:
                     changed = True
         return changed
 
@@ -259,6 +278,12 @@ class Flow:
                             r.discard(("fresh", ""))
                             if r and not r <= self.roots[d["id"]]:
                                 self.roots[d["id"]] |= r
+                                changed = True
+                            tg = set(_lvalue_locals(n.c[0])) - {d["id"]}
+                            for t_ in list(tg):
+                                tg |= self.alias_ids.get(t_, set())
+                            if not tg <= self.alias_ids[d["id"]]:
+                                self.alias_ids[d["id"]] |= tg
                                 changed = True
                     # range-for loop variable
                     p = n.parent
@@ -292,6 +317,12 @@ class Flow:
                         a |= self.deps(n.c[0])
                     a |= _index_atoms(self, n.c[0])
                     changed |= self._assign(n.c[0], a, n)
+                    l0 = n.c[0].strip_all()
+                    if l0.k == "DeclRefExpr" and l0.decl and l0.decl.get("k") == "local" and (n.c[0].strip().tc == "ptr") and n.op == "=":
+                        tg = set(_lvalue_locals(n.c[1])) - {l0.decl["id"]}
+                        if not tg <= self.alias_ids[l0.decl["id"]]:
+                            self.alias_ids[l0.decl["id"]] |= tg
+                            changed = True
                 elif k == "UnaryOperator" and n.op in ("++", "--") and n.c:
                     changed |= self._assign(n.c[0], self.deps(n.c[0]), n)
                 elif k == "CXXOperatorCallExpr" and n.op and n.op.endswith("=") and n.op not in ("==", "!=", "<=", ">=") and len(n.c) >= 3:
@@ -354,28 +385,48 @@ def _within(n, anc):
     return False
 
 
-def _lvalue_locals(t):
-    """decl ids of the local variables an lvalue expression writes into (v, v[i], v.f, *v, v->f ...)"""
+def _lvalue_locals(t, depth=0):
+    """decl ids of the local variables an lvalue / pointer expression writes into
+    (v, v[i], v.f, *v, v->f, v.data() + k, reinterpret_cast<T*>(v.data()), c ? a : b ...)"""
     out = []
-    seen = 0
-    while t is not None and seen < 20:
-        seen += 1
-        t = t.strip_all()
-        if t.k == "DeclRefExpr":
-            d = t.decl
-            if d and d.get("k") in ("local", "binding", "parm"):
-                out.append(d["id"])
+    if t is None or depth > 12:
+        return out
+    t = t.strip_all()
+    k = t.k
+    if k in ("CXXReinterpretCastExpr", "CXXConstCastExpr", "CXXDynamicCastExpr") and t.c:
+        return _lvalue_locals(t.c[0], depth + 1)
+    if k == "DeclRefExpr":
+        d = t.decl
+        if d and d.get("k") in ("local", "binding", "parm"):
+            out.append(d["id"])
+        return out
+    if k == "MemberExpr":
+        return _lvalue_locals(t.c[0], depth + 1) if t.c else out
+    if k in ("ArraySubscriptExpr", "UnaryOperator"):
+        return _lvalue_locals(t.c[0], depth + 1) if t.c else out
+    if k == "BinaryOperator" and len(t.c) == 2:
+        if t.op in ("+", "-"):
+            for ch in t.c:
+                if ch.strip().tc == "ptr" or ch.strip().tc == "rec":
+                    out += _lvalue_locals(ch, depth + 1)
             return out
-        if t.k == "MemberExpr":
-            t = t.c[0] if t.c else None
-        elif t.k in ("ArraySubscriptExpr", "UnaryOperator"):
-            t = t.c[0] if t.c else None
-        elif t.k == "CXXOperatorCallExpr" and len(t.c) > 1:
-            t = t.c[1]
-        elif t.k == "CXXMemberCallExpr":
-            t = t.call_object()
-        else:
-            return out
+        if t.op == ",":
+            return _lvalue_locals(t.c[1], depth + 1)
+        return out
+    if k == "ConditionalOperator" and len(t.c) == 3:
+        return _lvalue_locals(t.c[1], depth + 1) + _lvalue_locals(t.c[2], depth + 1)
+    if k == "CXXOperatorCallExpr" and len(t.c) > 1:
+        return _lvalue_locals(t.c[1], depth + 1)
+    if k == "CXXMemberCallExpr":
+        return _lvalue_locals(t.call_object(), depth + 1)
+    if k == "CallExpr":
+        for a in t.call_args():
+            out += _lvalue_locals(a, depth + 1)
+        return out
+    if k in ("CXXConstructExpr", "CXXTemporaryObjectExpr") and is_alias_type(t.type, t.tc):
+        for a in t.c:
+            out += _lvalue_locals(a, depth + 1)
+        return out
     return out
 
 
